@@ -70,12 +70,9 @@ def replay(hist):
             inst(b"N.")       # constructing is the step
         st = {"op": op}
         # through the entry points of the pickle module (alternating which one)
-        if active:
-            entry = [lambda d: pickle.loads(d), lambda d: pickle.load(io.BytesIO(d)),
-                     lambda d: _pickle.loads(d), lambda d: _pickle.load(io.BytesIO(d))]
-            st["env"] = [outcome(lambda g=g, k=k: entry[(k + len(steps)) % 4](pk(g))) for k, g in enumerate(GLOBALS)]
-        else:
-            st["env"] = ["na"] * len(GLOBALS)
+        entry = [lambda d: pickle.loads(d), lambda d: pickle.load(io.BytesIO(d)),
+                 lambda d: _pickle.loads(d), lambda d: _pickle.load(io.BytesIO(d))]
+        st["env"] = [outcome(lambda g=g, k=k: entry[(k + len(steps)) % 4](pk(g))) for k, g in enumerate(GLOBALS)]
         st["plain"] = [outcome(lambda g=g: ml.FicklingMLUnpickler(io.BytesIO(pk(g))).load()) for g in GLOBALS]
         st["inst"] = [outcome(lambda g=g: inst(pk(g)).load()) for g in GLOBALS] if inst else ["na"] * len(GLOBALS)
         st["base_same"] = ml.ML_ALLOWLIST == BASE0
